@@ -133,4 +133,51 @@ structure LibEncContract {τ : Type} (L : Lib τ) (b : Backend) (Dec : Bytes →
     (inp ≠ [] ∨ fl = Flush.full) →
     (L.call s inp room fl).ret = LibRet.ok → 0 < (L.call s inp room fl).consumed + (L.call s inp room fl).out.length
 
+/--
+Calling convention of a zlib-style **decompressing** stream object (`inflate`, `lzma_code` on a decoder,
+`BZ2_bzDecompress`) on well-formed input, in the shape of `DecContract`.  `R s u v`: of the current member `u` has been
+consumed and `v` produced.  Calls are made with room only.
+-/
+structure LibDecContract {τ : Type} (L : Lib τ) (b : Backend) (Dec : Bytes → Option Bytes) where
+  R : τ → Bytes → Bytes → Prop
+  pend : τ → Nat
+  init : R L.init [] []
+  dec_nil : Dec [] = none
+  /-- `total_in` is zero exactly as long as nothing of the current member has been consumed -/
+  total : ∀ {s u v}, R s u v → (L.totalIn s = 0 ↔ u = [])
+  /-- inside a valid member, offered a prefix of what follows: `OK`, `STREAM_END` or (zlib, liblzma) `BUF_ERROR`;
+      nothing beyond the member is consumed; the output continues the content; `STREAM_END` exactly at the end -/
+  valid : ∀ {s u v} (w x tail inp : Bytes) (room : Nat) (fl : Flush), R s u v → Dec (u ++ w) = some x →
+    IsPre inp (w ++ tail) → 0 < room →
+    ((L.call s inp room fl).ret = LibRet.ok ∨ (L.call s inp room fl).ret = LibRet.streamEnd ∨
+      ((L.call s inp room fl).ret = LibRet.bufError ∧ b ≠ Backend.bzip2)) ∧
+    (L.call s inp room fl).consumed ≤ inp.length ∧ (L.call s inp room fl).consumed ≤ w.length ∧
+    (L.call s inp room fl).out.length ≤ room ∧ IsPre (v ++ (L.call s inp room fl).out) x ∧
+    ((L.call s inp room fl).ret = LibRet.streamEnd →
+      (L.call s inp room fl).consumed = w.length ∧ v ++ (L.call s inp room fl).out = x ∧ R (L.reset (L.call s inp room fl).st) [] []) ∧
+    ((L.call s inp room fl).ret ≠ LibRet.streamEnd →
+      R (L.call s inp room fl).st (u ++ inp.take (L.call s inp room fl).consumed) (v ++ (L.call s inp room fl).out))
+  /-- a call with input that answers `OK` has consumed or produced something -/
+  bytes : ∀ {s u v} (w x tail inp : Bytes) (room : Nat) (fl : Flush), R s u v → Dec (u ++ w) = some x →
+    IsPre inp (w ++ tail) → 0 < room → inp ≠ [] → (L.call s inp room fl).ret = LibRet.ok →
+    0 < (L.call s inp room fl).consumed + (L.call s inp room fl).out.length
+  progress : ∀ {s u v} (w x tail inp : Bytes) (room : Nat) (fl : Flush), R s u v → Dec (u ++ w) = some x →
+    IsPre inp (w ++ tail) → 0 < room → inp ≠ [] →
+    0 < (L.call s inp room fl).consumed ∨
+    pend (if (L.call s inp room fl).ret = LibRet.streamEnd then L.reset (L.call s inp room fl).st else (L.call s inp room fl).st) < pend s
+  /-- `BUF_ERROR` without output means: all offered input has been consumed and more is needed (zlib answers it to `Z_FINISH`
+      whenever the member is not complete; otherwise only when no progress was possible) -/
+  buf_quiet : ∀ {s u v} (w x tail inp : Bytes) (room : Nat) (fl : Flush), R s u v → Dec (u ++ w) = some x →
+    IsPre inp (w ++ tail) → 0 < room → (L.call s inp room fl).ret = LibRet.bufError → (L.call s inp room fl).out = [] →
+    (L.call s inp room fl).consumed = inp.length ∧ (fl = Flush.full ∨ inp = [])
+  /-- output is produced as the input is consumed: a call after which the member is completely consumed hands something
+      out or ends the member -/
+  drain : ∀ {s u v} (w x tail inp : Bytes) (room : Nat) (fl : Flush), R s u v → Dec (u ++ w) = some x →
+    IsPre inp (w ++ tail) → 0 < room → (L.call s inp room fl).consumed = w.length →
+    (L.call s inp room fl).out ≠ [] ∨ (L.call s inp room fl).ret = LibRet.streamEnd
+  /-- between two members, without input: nothing happens -/
+  idle : ∀ {s} (room : Nat) (fl : Flush), R s [] [] → 0 < room →
+    ((L.call s [] room fl).ret = LibRet.ok ∨ ((L.call s [] room fl).ret = LibRet.bufError ∧ b ≠ Backend.bzip2)) ∧
+    (L.call s [] room fl).out = [] ∧ (L.call s [] room fl).consumed = 0 ∧ R (L.call s [] room fl).st [] []
+
 end Sqfs.Xfrm
